@@ -229,6 +229,9 @@ def edit_obligations(rep):
             orig = models.symval_method
             models.symval_method = lambda ex_, recv, name, args, kwargs, node: SymVal('str', LOWER(recv.t)) if (name == 'lower' and recv.sort == 'str') else orig(ex_, recv, name, args, kwargs, node)
             planner = SymObj(None, 'self', prov='param')
+            from mindsdb_sql.planner.query_planner import QueryPlanner as _QP
+            planner.self_class = _QP          # helper methods extracted from the visitor are the real ones of QueryPlanner
+            planner.known_not_none = True     # the receiver of a method
             captured = {}
             ex.stubs[('mindsdb_sql.planner.utils', 'query_traversal')] = lambda ex_, a, k, node_=None: captured.update(cb=a[1])
             database = pysym.mk_str('database')
